@@ -345,3 +345,51 @@ theorem C19_block_diag_charpoly {K : Type} [CommRing K] {m n : Type} [Fintype m]
   simp
 
 end Rotation
+
+section SymBlock
+
+/-- the symmetric 2×2 block [[a, b], [b, a]] -/
+def symBlock {K : Type} [Ring K] (a b : K) : Matrix (Fin 2) (Fin 2) K := !![a, b; b, a]
+
+theorem C19_sym_block_symm {K : Type} [Ring K] (a b : K) : (symBlock a b).transpose = symBlock a b := by
+  ext i j; fin_cases i <;> fin_cases j <;> simp [symBlock]
+
+/-- **Symmetric blocks**: the characteristic determinant factors as (a + b − μ)(a − b − μ) -/
+theorem C19_sym_block_det {K : Type} [CommRing K] (a b μ : K) :
+    (symBlock a b - μ • (1 : Matrix (Fin 2) (Fin 2) K)).det = (a + b - μ) * (a - b - μ) := by
+  simp [symBlock, Matrix.det_fin_two]
+  ring
+
+/-- … so over a domain its eigenvalues are exactly a + b and a − b -/
+theorem C19_sym_block_eigen {K : Type} [CommRing K] [IsDomain K] (a b μ : K) :
+    (symBlock a b - μ • (1 : Matrix (Fin 2) (Fin 2) K)).det = 0 ↔ μ = a + b ∨ μ = a - b := by
+  rw [C19_sym_block_det, mul_eq_zero]
+  constructor
+  · rintro (h | h)
+    · left; exact (sub_eq_zero.mp h).symm
+    · right; exact (sub_eq_zero.mp h).symm
+  · rintro (h | h)
+    · left; rw [h]; ring
+    · right; rw [h]; ring
+
+/-- … and the largest modulus of an eigenvalue is max |a + b| |a − b| = |a| + |b|: a NEGATIVE dominant eigenvalue
+    (a + b < 0 with a, b ≤ 0) still gives a positive radius -/
+theorem C19_sym_block_radius {K : Type} [Field K] [LinearOrder K] [IsStrictOrderedRing K] (a b μ : K)
+    (h : (symBlock a b - μ • (1 : Matrix (Fin 2) (Fin 2) K)).det = 0) :
+    |μ| ≤ max |a + b| |a - b| ∧ max |a + b| |a - b| = |a| + |b| := by
+  refine ⟨?_, ?_⟩
+  · rcases (C19_sym_block_eigen a b μ).mp h with h | h <;> rw [h]
+    · exact le_max_left _ _
+    · exact le_max_right _ _
+  · rcases le_total 0 a with ha | ha <;> rcases le_total 0 b with hb | hb <;>
+      rcases le_total 0 (a + b) with hab | hab <;> rcases le_total 0 (a - b) with hab' | hab' <;>
+      simp only [abs_of_nonneg, abs_of_nonpos, ha, hb, hab, hab', max_def] <;> split_ifs <;> linarith
+
+/-- non-vacuity: the block [[-3, -2], [-2, -3]] has the eigenvalue −5 (dominant, negative) and radius 5 -/
+example : (symBlock (-3 : ℚ) (-2) - (-5 : ℚ) • (1 : Matrix (Fin 2) (Fin 2) ℚ)).det = 0 ∧
+    max |(-3 : ℚ) + -2| |(-3 : ℚ) - -2| = 5 := by
+  constructor
+  · rw [C19_sym_block_det]; norm_num
+  · norm_num [abs_of_nonpos, max_def]
+
+end SymBlock
